@@ -31,3 +31,35 @@ Proof.
   destruct f; destruct out; cbn; intros H; try discriminate; rewrite ?Hnil;
     try (exfalso; eapply Hb; reflexivity); split; try reflexivity; eauto.
 Qed.
+
+(* C16, clone: the whole effect trace. It is a prefix of  open(output, never truncating) ; chunk writes ; set_len(|source|):
+   at most one open for writing, of the output; nothing is written before that open succeeded; the length is set only
+   after the writes and only to the source length; nothing else happens. A command that succeeds ran the full
+   sequence (without the set_len on a block device). *)
+Theorem clone_trace_shape : forall env,
+  let r := clone_cmd_model env in
+  exists cr ex ok k,
+    s_eff r = firstn k [EOpenW 0 cr ex false ok; EWrites; ESetLen (lenN (e_src env))]
+    /\ (s_failed r = false -> ok = true /\ k = match e_out env with Blk _ => 2%nat | _ => 3%nat end).
+Proof.
+  intros [[fc so vo] ar pn out src]. cbv zeta. unfold clone_cmd_model, run_clone, clone_step_order.
+  cbn [e_src e_out].
+  destruct ar; destruct pn; destruct fc; destruct so; destruct vo; destruct out as [|c|c]; cbn;
+    repeat match goal with
+           | |- context [if ?b then _ else _] => destruct b; cbn
+           end;
+    first [ exists false, false, false, 0%nat; split; [reflexivity|intro H; discriminate H]
+          | do 3 eexists; exists 1%nat; split; [reflexivity|intro H; discriminate H]
+          | do 3 eexists; exists 2%nat; split; [reflexivity|intro H; first [discriminate H|split; reflexivity]]
+          | do 3 eexists; exists 3%nat; split; [reflexivity|intro H; first [discriminate H|split; reflexivity]] ].
+Qed.
+
+(* C16, compress: a run that fails at the refusal leaves no temporary file behind and removes nothing *)
+Theorem compress_failed_no_temp : forall env,
+  let r := compress_cmd_model env in
+  s_failed r = true ->
+  exists cr ex tr, s_eff r = [EOpenW 0 cr ex tr false] /\ s_out r = z_out env.
+Proof.
+  intros [[f] out a]. cbv zeta. unfold compress_cmd_model, compress_step_order.
+  destruct f; destruct out; cbn; intros H; try discriminate H; eauto.
+Qed.
